@@ -29,6 +29,7 @@ def parse(line):
     d["out"] = [int(x) for x in o if x.lstrip("-").isdigit()]
     d["reqs"] = [int(x) for x in c.split("reqs=")[1].split()[0].split(",") if x]
     d["exhausted"] = "EXHAUSTED" in c
+    d["first"] = int(c.split("first=")[1].split()[0]) if "first=" in c else 0
     return d
 
 def run_lines(exe, lines, timeout=900):
